@@ -60,6 +60,9 @@ class GOp:
     def allclose(self, other):
         return self.label == other.label
 
+    def norm(self, p='fro'):
+        return 1.0                      # ghost operators (and their on-site products) are non-zero
+
     def __matmul__(self, other):
         n = FUSE_S([self.n0, other.n0], (1, 1), 1, self.config.symname)
         return GOp(self.V, self.config, self.label + other.label, n)
@@ -170,6 +173,10 @@ def h_generate_mpo_rejects(V, symname, N):
     V.check('positions-and-operators-of-different-length-rejected', out.raised(YastnError))
     out = V.outcome(generate_mpo, I, [Hterm(1.0, (-1,), (o,))], N=N)
     V.check('negative-position-rejected', out.raised(YastnError))
+    out = V.outcome(generate_mpo, I, [Hterm(1.0, (N,), (o,))], N=N)
+    V.check('position-N-rejected', out.raised(YastnError))
+    out = V.outcome(generate_mpo, I, [Hterm(1.0, (0, N), (o, o))], N=N)
+    V.check('position-N-rejected', out.raised(YastnError))
     bad = GOp(V, cfg, 'b', zero)
     bad.s = (-1, 1)
     out = V.outcome(generate_mpo, I, [Hterm(1.0, (0,), (bad,))], N=N)
